@@ -118,12 +118,14 @@ def check_density(name, lp_row, D, xmax, tier, box=None, floor1=1e-6, floor2=1e-
 # ----------------------------------------------------------------------------- nflows Distribution subjects
 
 
-def normal_family_case(dname, cfg, pname, rows, seed, tier):
+def normal_family_case(dname, cfg, pname, rows, seed, tier, obj=None, stage=""):
     out = []
     d = DC.DSUBJECTS[dname]
     sig = DC.dev_signature(d, cfg)
+    first_pass = obj is None
     try:
-        obj = DC.materialise(d, cfg, pname, seed)
+        if obj is None:
+            obj = DC.materialise(d, cfg, pname, seed)
     except Exception as e:
         return [("construct", "constructor raises %s" % type(e).__name__, "%s cfg=%s: %s" % (dname, cfg, str(e)[:100]))], 0
     es = d.event_shape(cfg)
@@ -223,6 +225,13 @@ def normal_family_case(dname, cfg, pname, rows, seed, tier):
             pass
         except Exception as e:
             out.append(("sample", "sample raises %s" % type(e).__name__, "%s cfg=%s: sample(%d): %s: %s" % (dname, cfg, M, type(e).__name__, str(e)[:100])))
+    # 'for every parameter value' also means: after the parameters of THIS object were updated in place (an optimiser step)
+    if first_pass and not out and any(True for _ in obj.parameters()):
+        from mc.params import fill as _fill
+
+        _fill(obj, ("pat", 3 + seed % 3, 0.7))
+        more, _ = normal_family_case(dname, cfg, pname, rows, seed, tier, obj=obj, stage="after an in-place parameter update")
+        out += [(cell, sym + " (after an in-place parameter update)", msg + " [same object, parameters overwritten in place after the first evaluation]") for cell, sym, msg in more]
     return out, nrows
 
 
